@@ -72,7 +72,9 @@ pub fn next_version(rng: &mut Rng, spec: &WsSpec, file: &str, current: &str, las
     let is_test = pf.items.iter().any(|i| matches!(i, Item::Test(_)));
     let imports: Vec<Item> = pf.items.iter().filter(|i| matches!(i, Item::Star { .. } | Item::Import { .. } | Item::Plugins { .. })).cloned().collect();
     let o = GenOpts { in_class: false, alias: rng.chance(200), ..GenOpts::default() };
-    match rng.below(12) {
+    let orphan = super::ws::join_rel(&super::ws::dir_of(file), "orphan_fixtures.py");
+    let pick = if file.ends_with("conftest.py") && spec.file(&orphan).is_some() && !current.contains("orphan_fixtures") && rng.chance(300) { 7 } else { rng.below(12) };
+    match pick {
         0 => current.to_string(),                 // identical resend
         1 | 2 => break_syntax(rng, current),      // break syntax
         3 => last_valid.to_string(),              // repair
@@ -82,6 +84,12 @@ pub fn next_version(rng: &mut Rng, spec: &WsSpec, file: &str, current: &str, las
             let items: Vec<Item> = gen_items(rng, names, is_test, &o).into_iter().filter(|i| !matches!(i, Item::Fixture(_))).collect();
             let mut all = if rng.chance(700) { imports.clone() } else { vec![] };
             all.extend(items);
+            render(&all).text
+        }
+        7 if file.ends_with("conftest.py") && spec.file(&super::ws::join_rel(&super::ws::dir_of(file), "orphan_fixtures.py")).is_some() => {
+            // the edit starts importing a module nobody imported so far (the scan never analysed it)
+            let mut all = vec![Item::Star { module: if rng.chance(500) { ".orphan_fixtures".into() } else { "orphan_fixtures".into() }, target: Some(super::ws::join_rel(&super::ws::dir_of(file), "orphan_fixtures.py")) }];
+            all.extend(pf.items.iter().cloned());
             render(&all).text
         }
         6 if !imports.is_empty() || prop == "C07" => {
@@ -152,7 +160,9 @@ impl Scenario for History {
             small_ws(&mut rng, imports)
         };
         let names = names_pool(4);
-        let files: Vec<String> = spec.files.iter().filter(|f| f.rel.ends_with(".py") && !f.rel.ends_with("__init__.py")).map(|f| f.rel.clone()).collect();
+        // (the module nobody imports is never edited directly: whether the index holds its on-disk version then depends on
+        // whether an import was followed before or after the editor opened it - the statement has no answer for that)
+        let files: Vec<String> = spec.files.iter().filter(|f| f.rel.ends_with(".py") && !f.rel.ends_with("__init__.py") && !f.rel.ends_with("orphan_fixtures.py")).map(|f| f.rel.clone()).collect();
         let mut cur: BTreeMap<String, String> = spec.files.iter().map(|f| (f.rel.clone(), render(&f.items).text)).collect();
         let disk = cur.clone();
         let mut last_valid = cur.clone();
@@ -338,6 +348,15 @@ fn run_history_lsp(spec: &WsSpec, ops: &[HOp], root: &Path) -> HRes {
         latest.insert(f.clone(), t.clone());
     }
     if res.violations.is_empty() && !latest.is_empty() && latest.values().all(|t| parses(t)) {
+        // in half of the histories the editor saved every buffer before the crash: the restarted server then finds
+        // the latest contents on disk (and follows imports the edits introduced)
+        let saved = super::util::fnv(&serde_json::to_string(&latest).unwrap_or_default()) % 2 == 0;
+        if saved {
+            for (f, t) in &latest {
+                let _ = std::fs::write(root.join(f), t);
+            }
+            res.count("fault.buffers_saved_before_crash");
+        }
         let before = map_snap(&live, root);
         let files = super::dbsnap::files_in_cache(&live);
         let sa = super::observe::snapshot_files(&live, root, &files, false, false);
@@ -364,7 +383,21 @@ fn run_history_lsp(spec: &WsSpec, ops: &[HOp], root: &Path) -> HRes {
         res.count("fault.crash_restart_with_buffers_reopened");
         let after = map_snap(&srv2.db, root);
         if let Some(d) = before.diff(&after, false) {
-            res.violate("restart-changes-index", format!("after crash + restart with the same buffers re-opened the index differs: {}", d));
+            // modules that only one of the two servers has indexed at all (reached through an import that an edit added / removed)
+            let files_before: BTreeSet<String> = live.file_cache.iter().map(|e| rel(root, e.key())).chain(live.file_definitions.iter().map(|e| rel(root, e.key()))).collect();
+            let files_after: BTreeSet<String> = srv2.db.file_cache.iter().map(|e| rel(root, e.key())).chain(srv2.db.file_definitions.iter().map(|e| rel(root, e.key()))).collect();
+            let gone: Vec<&String> = files_before.difference(&files_after).collect();
+            let new: Vec<&String> = files_after.difference(&files_before).collect();
+            let (l, r) = before.only(&after);
+            let all_about = |lines: &Vec<String>, files: &Vec<&String>| !lines.is_empty() && lines.iter().all(|x| files.iter().any(|f| x.contains(f.as_str())));
+            let class = if saved && r.is_empty() && all_about(&l, &gone) {
+                "RC-UNIMPORTED-MODULE-KEPT"
+            } else if saved && l.is_empty() && all_about(&r, &new) {
+                "RC-NEW-IMPORT-NOT-FOLLOWED"
+            } else {
+                "restart-changes-index"
+            };
+            res.violate(class, format!("after crash + restart with the same buffers re-opened (saved: {}) the index differs: {}", saved, d));
         } else {
             let sb = super::observe::snapshot_files(&srv2.db, root, &files, false, false);
             if let Some((k, x, y)) = sa.first_diff(&sb) {
@@ -514,7 +547,14 @@ fn check_fresh_twin(res: &mut HRes, live: &Arc<FixtureDatabase>, log: &[(String,
         res.violate("history-index-inconsistent", format!("after step {}: {}", step, c));
     }
     if let Some(d) = a.diff(&b, false) {
-        res.violate("history-maps-differ", format!("after step {} the index differs from a fresh index built from the latest valid contents: {}", step, d));
+        // records of modules that only the long-lived index still holds: reached through an import that a later
+        // edit removed, never analysed directly by the history
+        let files_live: BTreeSet<String> = live.file_cache.iter().map(|e| rel(root, e.key())).chain(live.file_definitions.iter().map(|e| rel(root, e.key()))).collect();
+        let files_twin: BTreeSet<String> = twin.file_cache.iter().map(|e| rel(root, e.key())).chain(twin.file_definitions.iter().map(|e| rel(root, e.key()))).collect();
+        let gone: Vec<&String> = files_live.difference(&files_twin).filter(|f| !log.iter().skip(scan_len).any(|(lf, _)| lf == *f)).collect();
+        let (l, r) = a.only(&b);
+        let class = if r.is_empty() && !l.is_empty() && l.iter().all(|x| gone.iter().any(|f| x.contains(f.as_str()))) { "RC-UNIMPORTED-MODULE-KEPT" } else { "history-maps-differ" };
+        res.violate(class, format!("after step {} the index differs from a fresh index built from the latest valid contents: {}", step, d));
         return;
     }
     // undeclared findings of the document changed last (only when that last change was valid)
